@@ -18,7 +18,7 @@ RULE = ("rectangular string tables (1-4 columns x 1-5 rows, 1-2 blocks, 1-3 cate
         "(text compared byte for byte, parse result cell for cell); tokeniser and category/block/file readers on "
         "foreign and malformed CIF text; mapping-operation histories on the six container classes against the model "
         "and a dict (names with leading/inner/trailing/double underscores, alternative text layouts of the same element); == of two "
-        "parsed files that lay out the same tables differently, before any access; == of tables differing only in row count at every level (data..file), fresh and parsed; explicitly masked columns read in every as_array flavour, "
+        "parsed files that lay out the same tables differently, before any access; == of tables differing only in row count at every level (data..file), fresh and parsed; one file object written, edited in place and written again (and parsed, edited, written) against a fresh object; less-used entry points (copy, str, lines, block, read/write, mixins), other spellings of data/mask/keys, non-default as_array arguments, prefix/empty names; explicitly masked columns read in every as_array flavour, "
         "serialised, and sharing their data with an unmasked column; set/delete/serialise/row_count histories on text and binary categories (cached row count).  non-trivial = a table with an awkward value or >= 2 rows, a reader text with >= 2 tokens, "
         "a history with >= 3 operations; distinct = different op lines")
 TRUSTED = ["Python str.strip/split/splitlines/partition/ljust and dict order are modelled by their documented semantics "
